@@ -163,7 +163,9 @@ def run(ctx):
                         break
     # compiled code: ordinal and cardinal keys rendered by td_string! / td_display! / td! over locales with different CLDR patterns
     probe.run_render_probe(ctx, rng, n_crates=ctx.budget(1, 3), flavours=("string", "display", "view"), sig_prefix="plurals", per_key=4,
-                           opts={"locales": ["en", "fr", "cy", "ru"], "long_key": False})     # en/cy have rich ordinal rules, ru rich cardinal ones
+                           opts={"locales": ["en", "fr", "cy", "ru", "pt", "pt-PT"], "long_key": False, "formatted_keys": False, "overlap_keys": False})
+    # en/cy have rich ordinal rules, ru rich cardinal ones; pt and pt-PT share a language but not their rules (0 is `one` in pt only):
+    # both are rendered in the same process
     ctx.assumptions += PARSER_ASSUMPTIONS + ["CLDR plural rules themselves (ICU4X compiled data) are modelled as an oracle, not verified"]
     finish_broken(ctx, f"{len(projects)} plural projects")
     write_evidence(ctx, RULE)
